@@ -152,4 +152,31 @@ theorem parseToks_pr (np : Np BinOp UnOp) (C : Compat prattTbl np) (hU : ∀ u s
     parseToks ((pr np t).map ofPTok) = some (toSExpr t) := by
   simp [parseToks, classify_pr, adjacent_pr_of np hU, PrecU.roundtrip_all C t]
 
+/-! ### the source printer used by the correspondence is `PrecU.pr docNp` on operator trees -/
+def noStar : PTree → Bool
+  | .leaf .star => false
+  | .leaf _ => true
+  | .bin _ l r => noStar l && noStar r
+  | .un _ x => noStar x
+
+theorem needsS_toSExpr (p : Node BinOp UnOp) (s : Bool) (t : PTree) : needsS p s (toSExpr t) = needs docNp p s t := by
+  cases t with
+  | leaf a => cases a <;> rfl
+  | bin o l r => rfl
+  | un u x => rfl
+
+theorem map_wrap (b : Bool) (ts : List PTok) : (wrap b ts).map ofPTok = wrapR b (ts.map ofPTok) := by
+  cases b <;> simp [wrap, wrapR, ofPTok]
+
+theorem srcToks_eq : ∀ t : PTree, noStar t = true → srcToks (toSExpr t) = (pr docNp t).map ofPTok
+  | .leaf (.col i), _ => by simp [toSExpr, srcToks, pr, ofPTok]
+  | .leaf (.lit l), _ => by simp [toSExpr, srcToks, pr, ofPTok]
+  | .leaf .star, h => by simp [noStar] at h
+  | .bin o l r, h => by
+    simp only [noStar, Bool.and_eq_true] at h
+    simp [toSExpr, srcToks, pr, needsS_toSExpr, map_wrap, srcToks_eq l h.1, srcToks_eq r h.2, ofPTok]
+  | .un u x, h => by
+    simp only [noStar] at h
+    simp [toSExpr, srcToks, pr, needsS_toSExpr, map_wrap, srcToks_eq x h, ofPTok]
+
 end Lemmas.Pratt
